@@ -473,7 +473,7 @@ def c17(run, tier):
     trace = os.path.join(run.work, "html.ndjson")
     rep = run.tlc_gen_replay("MC_Html", cfg, "dom-shapes", harness_args=["-out", trace], timeout=Q(tier, 400, 3000))
     run.absorb(rep, ADAPTER_ASPECTS)
-    run.judge_trace(trace, "Trace_Store", "dom-shapes", "C17.trace", timeout=1800)
+    run.judge_trace(trace, "Trace_Store", "dom-shapes", "C17.trace", timeout=1800, max_lines=120000)
     record_and_judge(run, "html-record", ["-n", str(Q(tier, 1500, 9000))], "tag-soup", "C17.trace", ADAPTER_ASPECTS)
 
 
@@ -488,7 +488,7 @@ def c09(run, tier):
         trace = os.path.join(run.work, "xml.%s.ndjson" % label)
         rep = run.tlc_gen_replay("MC_Xml", cfg, label, harness_args=["-out", trace], timeout=Q(tier, 600, 3600), heap=Q(tier, "8g", "24g"))
         run.absorb(rep, ADAPTER_ASPECTS)
-        run.judge_trace(trace, "Trace_Store", "xml-trees-" + label, "C09.store", timeout=3000)
+        run.judge_trace(trace, "Trace_Store", "xml-trees-" + label, "C09.store", timeout=3000, max_lines=150000)
 
 
 def c19(run, tier):
